@@ -1037,7 +1037,12 @@ func (x *Exec) unbox(st *State, iv *Val, t types.Type) *Val {
 	case VOpaque, VFunc:
 		return opaqueVal(t)
 	}
-	return st.loadObj(t, iv.T, "", t)
+	v := st.loadObj(t, iv.T, "", t)
+	// the boxed value of an interface is a value of its dynamic type: lengths are non-negative, machine integers in range
+	for _, wf := range wellFormed(v) {
+		st.Assume(wf)
+	}
+	return v
 }
 
 // implementers of an interface among the named types of the repo (closed world)
